@@ -172,6 +172,21 @@ CONFIGS = [
 ]
 
 
+# hand-written hostile header values that every round sees (random generation reaches them only now and then): each under the field
+# names the configurations look at, in a complete message of its own
+ODD_VALUES = [b'=?UTF-8?B??=', b'=?UTF-8?Q??= =?UTF-8?B??= x', b'x =?UTF-8?b??= =?UTF-8?B?QUJD?=', b'=?x?B?=?= =?x?b?QQ?=', b'=?' + b'c' * 3000 + b'?B?QUJD?=',
+              b'=?x?Q?a?= ' * 400, b'=?x?B?=?x?B?QUJD?=?=', b'?= =? =?x?Q?=?=', b'=?x?B?' + b'QUJD' * 30 + b'?=', b'=?x?B?QQ=?=', b'=?x?Q?=?=', b'=?x?Q?=4?=',
+              b'=?x?q?_=5F=3F=?= =?', b'=?x?B?QUJD?==?x?B?QUJD?=', b'', b'\n \n\t\n x', b'\t', b'=?x?B?QUJD', b'=?x?B?' + b'\xff' * 9 + b'?=', b'a' * 9000]
+
+
+def odd_messages():
+    out = []
+    for i, v in enumerate(ODD_VALUES):
+        name = [b'Subject', b'To', b'X-Label', b'From', b'X-Zed', b'Date', b'Content-Type'][i % 7]
+        out.append(b'%s: %s\nX-Id: odd%d\nSubject: needle\n\nbody needle abcd\n' % (name, v, i))
+    return out
+
+
 def run_binary(ck, rng, rounds, stats):
     for round_ in range(rounds):
         name, rule = CONFIGS[round_ % len(CONFIGS)]
@@ -182,6 +197,9 @@ def run_binary(ck, rng, rounds, stats):
             text = hostile(rng)
             nm = sb.add(src, rng.choice(['new', 'cur']), text)
             msgs.append((nm, text))
+        if round_ < len(CONFIGS) and round_ % 5 != 4:
+            for text in odd_messages():
+                msgs.append((sb.add(src, 'new', text), text))
         stdin_mode = (round_ % 5 == 4)
         args = ['-d'] if name == 'dry' else []
         env = dict(SAN_ENV)
@@ -341,7 +359,7 @@ def run(ck):
                 'nesting 4-9 levels, 400-line folded headers, 40 duplicate headers, kilobyte encoded words; 3 of 4 then mutated (byte replace/insert of NUL, CR, LF, 8-bit and '
                 'delimiter bytes, range delete / duplicate, truncation, CRLF conversion, boundary lines with trailing junk, mbox/blank prefixes, duplicated X-Label + later header), '
                 'capped at 64 KiB. API stream: 1-6 of get_header / set_header / write / body / attachments per message on the ASan+UBSan driver. Binary: %d configurations '
-                '(header, body, attachment, add-header + label, date, attachment block + exec, -d in C and C.UTF-8) round-robin, every fifth round in stdin mode, 20 messages '
+                '(header, body, attachment, add-header + label, date, attachment block + exec, -d in C and C.UTF-8) round-robin, every fifth round in stdin mode, 20 messages (plus, in the first round of each configuration, a fixed corpus of 20 hand-written odd header values: empty, nested, unterminated, over-long and 8-bit encoded words, values of blanks and folds only) '
                 'per run, %d s limit. Memcheck: the plain build under valgrind on maildirs of 15 messages (a large well-formed one first, then truncated messages - ending inside a header name, value, encoded word, part header, escape - and hostile ones), MALLOC_PERTURB_ set. non-trivial = every API case and binary run (each executes the sanitized implementation)' % (len(CONFIGS), TIME_LIMIT),
         'traces_validated_against_impl': stats['api'] + stats['runs'],
         'api_cases': stats['api'], 'binary_runs': stats['runs'], 'scanner_model_cases': stats['scan'], 'memcheck_runs': stats['memcheck'],
